@@ -592,15 +592,36 @@ def symbolic_qsvs(e, model, backend_name):
   return qsvs
 
 
-def run_pipeline(e, model_bytes, recipe, backend='UF', qsvs=None):
+def run_pipeline(e, model_bytes, recipe, backend='UF', qsvs=None,
+                 history=None):
   be = symnp.set_backend(B.UF() if backend == 'UF' else B.Bits())
   be.reset()
   out = Outcome()
   out.input_model = flatbuffer_utils.read_model_from_bytearray(
       bytearray(model_bytes))
   rm = recipe_manager.RecipeManager()
+  out.recipe = recipe
   try:
-    rm.load_quantization_recipe(copy.deepcopy(recipe))
+    if history:
+      # the manager has a past: earlier rules were added and RESOLVED (as a
+      # previous quantize()/calibrate() on the same Quantizer does), then the
+      # final recipe is entered through update calls
+      for past in history:
+        for r in copy.deepcopy(past):
+          rm.add_quantization_config(
+              r['regex'], r['operation'],
+              qtyping.OpQuantizationConfig.from_dict(r['op_config'])
+              if r.get('op_config') else None, r['algorithm_key'])
+        for si, oi, scope, name in op_scopes(out.input_model):
+          if name is not None:
+            rm.get_quantization_configs(qtyping.TFLOperationName(name), scope)
+      for r in copy.deepcopy(recipe):
+        rm.add_quantization_config(
+            r['regex'], r['operation'],
+            qtyping.OpQuantizationConfig.from_dict(r['op_config'])
+            if r.get('op_config') else None, r['algorithm_key'])
+    else:
+      rm.load_quantization_recipe(copy.deepcopy(recipe))
   except Exception as ex:  # pylint: disable=broad-except
     out.raised = ex
     out.stage = 'load_recipe'
@@ -636,30 +657,43 @@ def run_pipeline(e, model_bytes, recipe, backend='UF', qsvs=None):
   return out
 
 
+def fresh_manager(out):
+  """A fresh RecipeManager holding the final recipe: what the rules select is
+  a pure function of the rule list (C11), whatever the past of the manager
+  that was used for the run."""
+  rec = getattr(out, 'recipe', None)
+  if rec is None:
+    return out.recipe_manager
+  rm = recipe_manager.RecipeManager()
+  rm.load_quantization_recipe(copy.deepcopy(rec))
+  return rm
+
+
 def resolver(out):
-  """(subgraph, op) -> resolved (algorithm, config) via the real manager."""
+  """(subgraph, op) -> resolved (algorithm, config) via a fresh real manager."""
   scopes = {(si, oi): (scope, name)
             for si, oi, scope, name in op_scopes(out.input_model)}
+  rm = fresh_manager(out)
 
   def resolve(si, oi):
     scope, name = scopes[(si, oi)]
     if name is None:
       return None
-    return out.recipe_manager.get_quantization_configs(
-        qtyping.TFLOperationName(name), scope)
+    return rm.get_quantization_configs(qtyping.TFLOperationName(name), scope)
   return resolve
 
 
 def io_quantized(out):
   res = {}
   m = out.input_model
+  frm = fresh_manager(out)
   for si, sg in enumerate(m.subgraphs):
     for kind, lst in (('INPUT', sg.inputs), ('OUTPUT', sg.outputs)):
       # the virtual INPUT op outputs the graph inputs; the virtual OUTPUT op
       # has no outputs, hence the empty scope
       scope = ''.join(oracles.tname(sg.tensors[i]) + ';' for i in lst) \
           if kind == 'INPUT' else ''
-      alg, cfg = out.recipe_manager.get_quantization_configs(
+      alg, cfg = frm.get_quantization_configs(
           qtyping.TFLOperationName(kind), scope)
       res[(si, kind)] = oracles.mode_of((alg, cfg)) == 'SRQ'
   return res
@@ -669,12 +703,12 @@ def io_quantized(out):
 # generic job: explore (UF) -> concretise (BITS) -> candidate
 # ---------------------------------------------------------------------------
 def explore_case(skel, rname, model_bytes, recipe, oracle_fn, max_paths=3000,
-                 wall_s=120):
+                 wall_s=120, history=None):
   """oracle_fn(e, out) issues e.check(...) calls with concrete bools."""
 
   def harness_for(backend):
     def h(e):
-      out = run_pipeline(e, model_bytes, recipe, backend)
+      out = run_pipeline(e, model_bytes, recipe, backend, history=history)
       e.reach('pipeline')
       oracle_fn(e, out)
     return h
@@ -692,7 +726,7 @@ def explore_case(skel, rname, model_bytes, recipe, oracle_fn, max_paths=3000,
     status, vals = Engine(solver_timeout_ms=60000).concretize(
         harness_for('BITS'), v, timeout_ms=60000)
     data = {'skeleton': skel, 'recipe': rname, 'info': v.info,
-            'concretize': status}
+            'concretize': status, 'history': history}
     if status == 'sat':
       data['stats'] = {k: z3val_to_py(x) for k, x in vals.items()}
     else:
@@ -733,7 +767,7 @@ def model_bytes_of(skel, tier='thorough'):
   return skeleton_family(tier)[skel]
 
 
-def replay_public(skel, rname, stats, tier='thorough'):
+def replay_public(skel, rname, stats, tier='thorough', history=None):
   """Runs the public API concretely. Returns (outcome dict)."""
   if skel.startswith('dag'):
     fam = skeleton_family('thorough_dags', int(skel[3:].split('_')[0]))
@@ -742,7 +776,28 @@ def replay_public(skel, rname, stats, tier='thorough'):
   model_bytes = fam[skel]
   recipe = recipe_family(model_bytes, 'thorough')[rname]
   inp = flatbuffer_utils.read_model_from_bytearray(bytearray(model_bytes))
-  q = quantizer_lib.Quantizer(model_bytes, copy.deepcopy(recipe))
+  if history:
+    # same past through the public API: quantize with the earlier recipes on
+    # this Quantizer, then enter the final recipe with update calls
+    q = quantizer_lib.Quantizer(model_bytes, None)
+    for past in history:
+      for r in copy.deepcopy(past):
+        q.update_quantization_recipe(
+            r['regex'], r['operation'],
+            qtyping.OpQuantizationConfig.from_dict(r['op_config'])
+            if r.get('op_config') else None, r['algorithm_key'])
+      try:
+        with np.errstate(all='ignore'):
+          q.quantize(concrete_qsvs(inp, stats) if q.need_calibration else None)
+      except Exception:  # pylint: disable=broad-except
+        pass
+    for r in copy.deepcopy(recipe):
+      q.update_quantization_recipe(
+          r['regex'], r['operation'],
+          qtyping.OpQuantizationConfig.from_dict(r['op_config'])
+          if r.get('op_config') else None, r['algorithm_key'])
+  else:
+    q = quantizer_lib.Quantizer(model_bytes, copy.deepcopy(recipe))
   qsvs = concrete_qsvs(inp, stats) if q.need_calibration else None
   res = {'input_model': inp, 'recipe': recipe, 'quantizer': q}
   try:
@@ -757,6 +812,7 @@ def replay_public(skel, rname, stats, tier='thorough'):
   out = Outcome()
   out.input_model = inp
   out.recipe_manager = q._recipe_manager
+  out.recipe = recipe
   out.model = res.get('model')
   out.raised = res['raised']
   res['outcome'] = out
